@@ -1,6 +1,7 @@
 import Mkdb.Proofs.Redo
 import Mkdb.Proofs.Wal
 import Mkdb.Proofs.RedoLink
+import Mkdb.Proofs.ReplayInsert
 /-!
 # C02 — acknowledged statements survive a crash between statements
 
@@ -76,3 +77,34 @@ theorem C02_concrete_recovery_reconstructs (log : List WalRec) (s : Store)
 example : StaticFits exLog exStore1 ∧ Redo.LogOK (exLog.map toAbs) (absPages exStore) := ⟨ex_static1, ex_logOK⟩
 
 end Mkdb.RedoLink
+
+namespace Mkdb.Store
+open Mkdb.Engine Mkdb.Tree Mkdb.Page
+
+/-- **C02.redo_of_unflushed_inserts** (INSERT records, concrete recovery model, with the catalog): take
+any history of INSERT statements run live from a store satisfying the catalog invariant; replaying
+the concatenation of their log records on the store *before* the history - the crash in which
+nothing since then had reached the data file - ends without error in a store with the same catalog,
+the same tables page for page, the same row-id counter and allocation frontier as the live run:
+tree inserts with all their splits, root moves and catalog re-pointing are redone exactly. -/
+theorem C02_redo_of_unflushed_inserts (sch : Levels) {s0 sN : Store} {tbls tblsN : List (Bytes × Levels)}
+    {stmts : List Stmt} {logs : List WalRec} (run : LiveRun sch s0 tbls stmts sN tblsN logs)
+    (pt : Levels) (h : Cat s0 pt sch tbls) (hself : PtSelf pt) (hf : Fresh s0 tbls) :
+    ∃ ptN rN, replayAll logs s0 = (rN, none, false) ∧
+      Cat sN ptN sch tblsN ∧ Cat rN ptN sch tblsN ∧
+      (∀ x ∈ catTrees ptN sch tblsN, ∀ o ∈ offs x, view rN o = view sN o) ∧
+      rN.hdr.nextFree = sN.hdr.nextFree ∧ rN.hdr.lastKey = sN.hdr.lastKey ∧
+      rN.hdr.ptRoot = sN.hdr.ptRoot ∧ rN.hdr.nextLSN ≤ sN.hdr.nextLSN :=
+  replay_history sch run pt h hself hf
+
+/-- **C02.recovery_of_a_flushed_database_changes_nothing**: a log every record of which is already
+applied - its page carries an LSN at least the record's, or it is an INSERT of a key the table
+already holds - is replayed without error and without any visible change; only the LSN counter
+moves, to the largest LSN seen (clean shutdown, and running recovery a second time). -/
+theorem C02_recovery_of_a_flushed_database_changes_nothing (log : List WalRec) (s : Store) (pt sch : Levels)
+    (tbls : List (Bytes × Levels)) (h : Cat s pt sch tbls) (hall : ∀ r ∈ log, Applied tbls s r) :
+    ∃ s', replayAll log s = (s', none, false) ∧ view s' = view s ∧ Cat s' pt sch tbls ∧
+      s'.hdr = { s.hdr with nextLSN := log.foldl (fun m r => max m r.lsn) s.hdr.nextLSN } :=
+  replay_clean log s pt sch tbls h hall
+
+end Mkdb.Store
